@@ -43,7 +43,13 @@
 (*    replaces whatever the client asked to run (exec, shell, subsystem);   *)
 (*  - from= (every option, positive and not negative pattern), cert         *)
 (*    source-address, principals, validity window and certificate type      *)
-(*    decide whether the credential is accepted at all.                     *)
+(*    decide whether the credential is accepted at all;                    *)
+(*  - a FIDO security key (sk-ssh-ed25519 / sk-ecdsa) signature must carry  *)
+(*    the user-presence bit unless EVERY applicable source says             *)
+(*    no-touch-required: the authorized_keys line and, for a certificate,   *)
+(*    ALSO the certificate's extension; verify-required on the line         *)
+(*    demands the user-verification bit; the signature covers the           *)
+(*    application id that is part of the public key.                        *)
 (***************************************************************************)
 EXTENDS Naturals, Sequences, FiniteSets, TLC
 
@@ -131,6 +137,7 @@ Cred(sec, method, entries, cert) ==
      \* token put into the signature: user-presence bit, user-verification bit, and whether it
      \* signed for the application id the public key names ("same") or another one
      ktype |-> "ed25519",
+     kapp |-> "ssh:",    \* application id the security key was enrolled for (part of the key)
      sig |-> [up |-> TRUE, uv |-> FALSE, app |-> "same"]]
 
 ----------------------------------------------------------------------------
@@ -425,6 +432,9 @@ SkRows ==
     \cup {WithSk(Cred("sk", "publickey", <<Entry(FALSE, "user-otherapp", w)>>, NoCert), t, g) :
              w \in {<<>>, <<"no-touch-required">>}, t \in SkTypes,
              g \in {g \in Sigs : g.up /\ ~g.uv}}
+    \* a key enrolled for another application id: the signature must cover THAT id
+    \cup {[WithSk(KeyRow("sk", <<>>), t, g) EXCEPT !.kapp = "ssh:other"] :
+             t \in SkTypes, g \in {g \in Sigs : g.up /\ ~g.uv}}
     \* the words mean nothing for an ordinary key (its signature has no flags)
     \cup {KeyRow("sk", w) : w \in SkWords}
     \cup {CertRow("sk", w, NoTouch(Cert(Perms), b)) : w \in SkWords, b \in BOOLEAN}
